@@ -12,12 +12,13 @@ EXTENDS Integers, Sequences, FiniteSets, TLC, Json
 
 CONSTANTS Kind,        \* "codec" | "size"
           IdxC, TermC, TypeC, DataC, ExtC, TimeC,   \* codec: class ids per raft.Log field
-          SizeC, SegC, PosC                          \* size: entry size class x segment size class x batch position
+          SizeC, SegC, PosC,                         \* size: entry size class x segment size class x batch position
+          CodecC                                     \*   x codec (identity: encoded size = len(Data); binary: encoded size = len(Data) + header fields)
 
 VARIABLE case
 
 CodecCases == [idx : IdxC, term : TermC, typ : TypeC, data : DataC, ext : ExtC, time : TimeC]
-SizeCases  == [size : SizeC, seg : SegC, pos : PosC]
+SizeCases  == [size : SizeC, seg : SegC, pos : PosC, codec : CodecC]
 
 Init == case \in (IF Kind = "codec" THEN CodecCases ELSE SizeCases)
 Next == UNCHANGED case
